@@ -290,8 +290,6 @@ func (ti *typeInfo) compare(ref *encref.Node, results []result, skip func(vi int
 			f := mem.Field
 			if f < 0 || f >= nf {
 				f = fCreate
-			} else {
-				bad[f] = true
 			}
 			d := "missing"
 			for si := range strays {
@@ -312,6 +310,9 @@ func (ti *typeInfo) compare(ref *encref.Node, results []result, skip func(vi int
 			}
 			if d == "missing" && mem.Pres != encref.Must {
 				continue
+			}
+			if f >= 0 {
+				bad[f] = true
 			}
 			cf.add(fkey{f, d}, vi, mem, "", 0)
 		}
